@@ -158,6 +158,7 @@ def maps(run, thorough):
         model = {}
         hist = []
         through_wire = h % 2 == 1
+        last_icons = None
         for step in range(rng.choice((3, 20, 60))):
             mid = rng.randrange(3)
             pkt = M(context=ctx)
@@ -171,6 +172,16 @@ def maps(run, thorough):
                                    location=(rng.randrange(-128, 128),
                                              rng.randrange(-128, 128)))
                          for _ in range(rng.randrange(3))]
+            if last_icons is not None and rng.random() < 0.3:
+                # the program building the packets keeps one icon list and
+                # edits it in place between packets: maps patched earlier
+                # keep the icons they were given then
+                new_icons = pkt.icons
+                pkt.icons = last_icons
+                del pkt.icons[:]
+                pkt.icons.extend(new_icons)
+                run.count('map.icon_list_reused_in_place')
+            last_icons = pkt.icons
             cls = rng.randrange(6)
             if cls == 0:
                 w = hgt = 0
@@ -651,6 +662,53 @@ def aliases(run):
         run.violation('record/positional-construction', 'PositionAndLook '
                       'built from positional fields differs from the one '
                       'built from keywords', {'detail': ok})
+    # records with only some fields set, given to the aliases: whether or not
+    # the assignment is accepted, no value may land under another field's name
+    import itertools
+    rec_fields = ('x', 'y', 'z', 'yaw', 'pitch')
+    for K, label, names in (
+            (cb.PlayerPositionAndLookPacket, 'PPAL', rec_fields),
+            (cb.SpawnPlayerPacket, 'SpawnPlayer', rec_fields),
+            (cb.SpawnObjectPacket, 'SpawnObject', rec_fields),
+            (sb.PositionAndLookPacket, 'sbPositionAndLook',
+             ('x', 'feet_y', 'z', 'yaw', 'pitch'))):
+        for r in range(5):
+            for present in itertools.combinations(range(5), r):
+                rec = PositionAndLook(**{rec_fields[i]: 100.0 + i
+                                         for i in present})
+                pkt = K()
+                for i, nme in enumerate(names):
+                    setattr(pkt, nme, float(i))
+                try:
+                    pkt.position_and_look = rec
+                    outcome = 'accepted'
+                except Exception as e:
+                    outcome = type(e).__name__
+                run.count('alias.partial_records')
+                run.seen('alias.partial_record_outcomes', outcome)
+                got = [getattr(pkt, nme, '<<unset>>') for nme in names]
+                allowed = [(float(i), 100.0 + i) if i in present else
+                           (float(i),) for i in range(5)]
+                if any(g not in a for g, a in zip(got, allowed)):
+                    run.violation(
+                        'alias/partial-record-misassigned', 'a record with '
+                        'only some fields set, given to position_and_look, '
+                        'left a value under another field\'s name',
+                        {'class': label, 'fields_set': [rec_fields[i]
+                                                        for i in present],
+                         'outcome': outcome, 'packet_fields': got})
+                try:
+                    vals = list(rec)
+                except Exception:
+                    vals = None
+                if vals is not None and vals != [100.0 + i for i in present] \
+                        or vals is not None and len(vals) != 5:
+                    run.violation(
+                        'record/iteration-skips-fields', 'iterating a record '
+                        'with unset fields yields fewer values than fields '
+                        '(positions no longer correspond to fields)',
+                        {'fields_set': [rec_fields[i] for i in present],
+                         'iterated': repr(vals)})
     for K, label in ((cb.PlayerPositionAndLookPacket, 'PPAL'),
                      (cb.SpawnPlayerPacket, 'SpawnPlayer')):
         rt(label, K(), 'position', v, ('x', 'y', 'z'))
